@@ -167,7 +167,7 @@ def judge(sc, code, fired, snap, crashed):
             viol.append(("exit0-but-not-formatted", {"exit": code, "fired": fired, "tree": {k: v[:60] for k, v in snap.items()}}))
         if sc.get("expect_fail") and code == 0:
             viol.append(("failure-not-reported", {"exit": code}))
-        if fired and code == 0 and any(f[0] == "fault" and f[3] != errno.ENOENT for f in fired) and not done:
+        if fired and code == 0 and any(f[0] in ("fault", "fault-deferred") and f[3] != errno.ENOENT for f in fired) and not done:
             viol.append(("fault-swallowed", {"fired": fired}))
     return viol
 
@@ -178,7 +178,7 @@ class Faults(Space):
 
     def __init__(self, tier):
         self.tier = tier
-        self.floors = {"crash-fired": 100, "fault-fired": 200, "torn-write": 50}
+        self.floors = {"crash-fired": 100, "fault-fired": 200, "torn-write": 50, "deferred-write-fault": 20}
         self.dry = {}
         for name, sc in SCEN.items():
             code, log, fired, snap = run_scenario(sc)
@@ -209,6 +209,10 @@ class Faults(Space):
                     for e in ERRNOS[:3]:
                         yield (name, "fault", k, 0, e)
                         yield (name, "fault", k, max(1, n // 2), e)
+                    # the same failure met by a buffered writer: write() succeeds, the error surfaces at flush / close
+                    for e in (errno.ENOSPC, errno.EIO):
+                        yield (name, "fault-deferred", k, 0, e)
+                        yield (name, "fault-deferred", k, max(1, n // 2), e)
                 else:
                     yield (name, "crash", k, None, None)
                     for e in ERRNOS:
@@ -246,6 +250,10 @@ class Faults(Space):
         elif kind == "fault":
             code, log, fired, snap = run_scenario(sc, faults={k: e}, torn=p)
             tags = ["fault-fired"] if fired else []
+            viol = judge(sc, code, fired, snap, crashed=False)
+        elif kind == "fault-deferred":
+            code, log, fired, snap = run_scenario(sc, faults={k: (e, "deferred")}, torn=p)
+            tags = ["fault-fired", "deferred-write-fault"] if fired else []
             viol = judge(sc, code, fired, snap, crashed=False)
         else:
             k2, (e1, e2) = p, e
